@@ -283,6 +283,9 @@ func runC17(c *Ctx) {
 	c.Min("C17.3-guarded-by", 15)
 	{
 		addTags := calleeMethod("net/streampool", "AddTagsCtx")
+		// the critical section may have been moved into a function of its own
+		handleSubscribe, _ := descendTo(handleSubscribe, addTags)
+		c.Fn(FuncName(handleSubscribe))
 		ats := CallSinks(handleSubscribe, addTags, false)
 		for _, cs := range ats {
 			c.Check(la.Must(cs)[remoteMu], "C17.3-subscribe-atomic", FuncName(handleSubscribe)+"|AddTagsCtx under remoteMu", p.Pos(InstrPos(cs)), "interest record and stream tagging are one critical section w.r.t. onStreamClose")
@@ -312,6 +315,26 @@ func runC17(c *Ctx) {
 			}
 			fa, ok := cc.Call.Args[0].(*ssa.FieldAddr)
 			return ok && FieldOf(fa) == remoteMu.Obj
+		}
+		// `defer remoteMu.Unlock()`: the lock is released at every return
+		deferredUnlock := false
+		Instrs(handleSubscribe, func(in ssa.Instruction) {
+			if d, ok := in.(*ssa.Defer); ok {
+				if o := CalleeObj(&d.Call); o != nil && o.Name() == "Unlock" && len(d.Call.Args) > 0 {
+					if fa, ok := d.Call.Args[0].(*ssa.FieldAddr); ok && FieldOf(fa) == remoteMu.Obj {
+						deferredUnlock = true
+					}
+				}
+			}
+		})
+		if deferredUnlock {
+			explicit := isUnlock
+			isUnlock = func(in ssa.Instruction) bool {
+				if _, isRet := in.(*ssa.Return); isRet {
+					return true
+				}
+				return explicit(in)
+			}
 		}
 		for _, must := range []*ssa.Function{removeSP, pruneStream, pruneSpace} {
 			cut := CutAtCall(CalleeFn(must))
